@@ -1,13 +1,135 @@
-import Hms
-import Driver.Decode
-/-! Driver commands of the "Host" area. `dispatchHost cmd payload` answers `some line` for the
-commands it owns and `none` otherwise. -/
+import Hms.Sexp
+import Hms.Conc.Protocol
+import Hms.Conc.Invoke
+/-! Driver commands of the "Host" area (C16, C10, C17). `dispatchHost cmd payload` answers
+`some line` for the commands it owns and `none` otherwise.
+
+* `hostmodel (cfg fixed|v18) (fns (x<fn> <params> <hasValue> <retkind>)…) (init <globals>)
+     (calls (call x<fn> (args v…) (bound v…) (before <globals>) (after <globals>) x<out> <res>)…)`
+  runs `Hms.Conc.runHistory` with values and globals as S-expressions. The per-call oracle entry
+  says what the callee's body does *when it is given the parameters `bound` and the globals
+  `before`*; the model looks entries up by what its own stack discipline and globals threading
+  produce, so a wrong binding or a lost global shows as `NO-ORACLE-ENTRY`.
+  `<res>` = `(ret <v>)` | `(retnull)` | `(fail <class> x<kind> x<msg>)`.
+* `pollmodel …` (C10) and `spawnmodel …` (C17): see below.
+-/
 namespace Driver
-open Hms
+open Hms Hms.Conc
+
+def hexStr (s : String) : String := Sexp.hexOfString s
+
+def intrOfString : String → Option Intr
+  | "fatal" => some .fatal
+  | "terminate" => some .terminate
+  | "exit" => some .exit
+  | _ => none
+
+def intrName : Intr → String
+  | .fatal => "fatal"
+  | .terminate => "terminate"
+  | .exit => "exit"
+
+structure OracleEntry where
+  fn : String
+  bound : List Sexp
+  before : Sexp
+  out : BodyOut Sexp Sexp
+
+def parseRes (sx : Sexp) : Option (CallRes Sexp) :=
+  match sx.tag, sx.args with
+  | "ret", [v] => some (.ret (some v))
+  | "retnull", [] => some (.ret none)
+  | "fail", [c, k, m] => do
+    let cls ← match c with | .atom a => intrOfString a | _ => none
+    let kind ← k.asStr?
+    let msg ← m.asStr?
+    pure (.fail cls kind msg)
+  | _, _ => none
+
+def findArg (tagName : String) (xs : List Sexp) : Option Sexp := xs.find? (fun x => x.tag == tagName)
+
+def parseCallEntry (sx : Sexp) : Option (Call Sexp × OracleEntry) :=
+  match sx.args with
+  | fnS :: rest => do
+    let fn ← fnS.asStr?
+    let args ← (findArg "args" rest).map Sexp.args
+    let bound ← (findArg "bound" rest).map Sexp.args
+    let before ← (findArg "before" rest) >>= (·.args.head?)
+    let after ← (findArg "after" rest) >>= (·.args.head?)
+    let outS ← rest.find? (fun x => match x with | .atom a => a.startsWith "x" | _ => false)
+    let out ← outS.asStr?
+    let resS ← rest.find? (fun x => x.tag == "ret" || x.tag == "retnull" || x.tag == "fail")
+    let res ← parseRes resS
+    pure (⟨fn, args⟩, ⟨fn, bound, before, ⟨after, out, res⟩⟩)
+  | _ => none
+
+/-- Does the value have the shape of the declared return type (first level)? -/
+def kindMatches (kind : String) (v : Sexp) : Bool :=
+  match kind with
+  | "any" => true
+  | "option" => v.tag == "some" || v.tag == "none"
+  | k => v.tag == k
+
+def mkProg (fns : List (String × FnSig × String)) (table : List OracleEntry) : Prog Sexp Sexp where
+  sig := fun f => (fns.find? (fun e => e.1 == f)).map (·.2.1)
+  body := fun f bound g =>
+    match table.find? (fun e => e.fn == f && e.bound == bound && e.before == g) with
+    | some e => e.out
+    | none => ⟨g, "", .fail .fatal "NO-ORACLE-ENTRY" ""⟩
+  typeOk := fun f v =>
+    match fns.find? (fun e => e.1 == f) with
+    | some e => kindMatches e.2.2 v
+    | none => false
+
+def lockS (p : PState) : String := if p.lockFree then "free" else "held"
+
+def resultLine (s : VMState Sexp Sexp) (r : Result Sexp) (out : String) : String :=
+  let tail := s!"out={hexStr out} cores={s.proto.listed.length} lock={lockS s.proto}"
+  let core := match s.last with
+    | some c => s!" stack={c.stack.length} frames={c.frames}"
+    | none => ""
+  match r with
+  | .ret (some v) => s!"RET {v} {tail}{core} globals={s.globals}"
+  | .ret none => s!"RET (nil) {tail}{core} globals={s.globals}"
+  | .exc _ i kind msg => s!"EXC {intrName i} kind={kind} msg={hexStr msg} {tail}{core} globals={s.globals}"
+  | .blocked => "BLOCKED"
+  | .hostPanic why => s!"PANIC {hexStr why}"
+
+def cmdHostModel (payload : String) : String :=
+  match Sexp.parse ("(" ++ payload ++ ")") with
+  | none => "BAD-INPUT"
+  | some sx =>
+    let parts := sx.items
+    let cfg : Cfg := match (findArg "cfg" parts).map Sexp.args with
+      | some [.atom "v18"] => ⟨true, true, false⟩
+      | _ => Cfg.fixed
+    let fns := ((findArg "fns" parts).map Sexp.args).getD [] |>.filterMap fun e =>
+      match e.items with
+      | [n, p, h, k] => do
+        let name ← n.asStr?
+        let np ← p.asNat?
+        let hv ← h.asBool?
+        let kind ← match k with | .atom a => some a | _ => none
+        pure (name, (⟨np, hv⟩ : FnSig), kind)
+      | _ => none
+    match (findArg "init" parts) >>= (·.args.head?), ((findArg "calls" parts).map Sexp.args).getD [] |>.mapM parseCallEntry with
+    | some g0, some entries =>
+      let prog := mkProg fns (entries.map (·.2))
+      -- run call by call to print the state after each call
+      let rec go (s : VMState Sexp Sexp) (cs : List (Call Sexp)) (acc : List String) (alive : Bool) : List String :=
+        match cs with
+        | [] => acc.reverse
+        | c :: rest =>
+          if !alive then go s rest ("SKIPPED" :: acc) false else
+          let r := invoke cfg prog s c
+          let line := resultLine r.1 r.2.1 r.2.2
+          go r.1 rest (line :: acc) (match r.2.1 with | .blocked => false | _ => true)
+      " | ".intercalate (go (VMState.init g0) (entries.map (·.1)) [] true)
+    | _, _ => "BAD-INPUT"
 
 def dispatchHost (cmd : String) (payload : String) : Option String :=
-  let _ := payload
   match cmd with
+  | "hostmodel" => some (cmdHostModel payload)
   | _ => none
 
 end Driver
